@@ -150,10 +150,25 @@ TypeIds == {Descriptors[i].id : i \in 1..Len(Descriptors)}
 DescOf(id) == Descriptors[CHOOSE i \in 1..Len(Descriptors) : Descriptors[i].id = id]
 
 \* completed descriptors: as specified (ideal) and as built today (Dev)
-TabIdeal == [id \in TypeIds |-> MkDv(DescOf(id), {})]
-TabDev == [id \in TypeIds |-> MkDv(DescOf(id), Dev)]
+\* TLC re-evaluates a defined constant at every use: the completed tables are
+\* computed once (ASSUME, before the search) and kept in TLC's registers
+TabIdealDef == PairsToFun({<<id, MkDv(DescOf(id), {})>> : id \in TypeIds})
+TabDevDef == PairsToFun({<<id, MkDv(DescOf(id), Dev)>> : id \in TypeIds})
+ASSUME TLCSet(1, TabIdealDef) /\ TLCSet(2, TabDevDef)
+TabIdeal == TLCGet(1)
+TabDev == TLCGet(2)
 TI(id) == TabIdeal[id]
 TD(id) == TabDev[id]
+
+Res(v) == IF v = None THEN [err |-> TRUE] ELSE [ok |-> v]
+MnJ(T, c) == IF HasName(T, c) THEN T.nm[c] ELSE <<>>
+
+\* one table per single deviation (the tables depend on two of them)
+TabByDef == PairsToFun({<<d, PairsToFun({<<id, MkDv(DescOf(id), {d})>> : id \in TypeIds})>> : d \in Dev})
+ASSUME TLCSet(3, TabByDef)
+TabBy == TLCGet(3)
+TT(id, dv) == IF dv = {} THEN TabIdeal[id] ELSE TabBy[CHOOSE d \in dv : TRUE][id]
+
 
 TablesWellFormed == \A id \in TypeIds : WellFormed(DescOf(id))
 
